@@ -428,23 +428,63 @@ def check_fold(ctx, R="C06.fold"):
     )
     model = ctx.model
     fn = model.func(OT, "Constructible._resolveSpecifiers")
-    loops = [s for s in fn.body if isinstance(s, ast.For) and isinstance(s.iter, ast.Name) and s.iter.id in ("normal_specifiers", "modifying_specifiers")]
-    if len(loops) != 2:
+    # Roles are recovered from the code, never from the names of the locals.
+    # (1) the split must be a pure partition by isinstance(spec, ModifyingSpecifier) of the specifier list
+    spec_src = {"specifiers"} | set(lib.locals_assigned(fn, lambda v: unparse(v) in ("list(specifiers)", "tuple(specifiers)")))
+
+    def _partition(v, negated):
+        if not (isinstance(v, ast.ListComp) and len(v.generators) == 1):
+            return False
+        g = v.generators[0]
+        if not (isinstance(g.target, ast.Name) and isinstance(v.elt, ast.Name) and v.elt.id == g.target.id and unparse(g.iter) in spec_src and len(g.ifs) == 1):
+            return False
+        t = g.ifs[0]
+        neg = False
+        while isinstance(t, ast.UnaryOp) and isinstance(t.op, ast.Not):
+            t, neg = t.operand, not neg
+        return unparse(t) == f"isinstance({g.target.id}, ModifyingSpecifier)" and neg == negated
+
+    normal = lib.locals_assigned(fn, lambda v: _partition(v, True))
+    modif = lib.locals_assigned(fn, lambda v: _partition(v, False))
+    if len(normal) != 1 or len(modif) != 1:
+        raise AnalysisError("shape not recognised: the partition of the specifiers into normal and modifying ones in _resolveSpecifiers")
+    normal, modif = normal[0], modif[0]
+    loops = [s for s in fn.body if isinstance(s, ast.For) and isinstance(s.iter, ast.Name) and s.iter.id in (normal, modif)]
+    if len(loops) != 2 or loops[0].iter.id != normal or loops[1].iter.id != modif:
         raise AnalysisError("shape not recognised: the two priority loops of _resolveSpecifiers")
-    # the split must be a pure partition by isinstance(spec, ModifyingSpecifier)
-    for nm, neg in (("normal_specifiers", True), ("modifying_specifiers", False)):
-        v = lib.local_value(fn, nm)
-        want = f"[spec for spec in specifiers if {'not ' if neg else ''}isinstance(spec, ModifyingSpecifier)]"
-        if v is None or unparse(v) != want:
-            raise AnalysisError(f"shape not recognised: definition of {nm}")
+    # (2) the dictionaries and the set of final properties
+    dicts = lib.locals_assigned(fn, lambda v: unparse(v) in ("dict()", "{}"))
+    finals = lib.locals_assigned(fn, lambda v: unparse(v) == "cls._finalProperties")
+
+    def _stores(loop):
+        """{dict name: set of stored-value kinds} for `D[<prop>] = <value>` inside the loop."""
+        var = loop.target.id if isinstance(loop.target, ast.Name) else None
+        out = {}
+        for n in ast.walk(loop):
+            if isinstance(n, ast.Assign) and len(n.targets) == 1 and isinstance(n.targets[0], ast.Subscript) and isinstance(n.targets[0].value, ast.Name):
+                d = n.targets[0].value.id
+                kind = "spec" if unparse(n.value) == var else "priority" if unparse(n.value).startswith(f"{var}.priorities[") else "other"
+                out.setdefault(d, set()).add(kind)
+        return out
+
+    st0, st1 = _stores(loops[0]), _stores(loops[1])
+    properties_d = [d for d, k in st0.items() if k == {"spec"} and d in dicts]
+    priorities_d = [d for d, k in st0.items() if k == {"priority"} and d in dicts]
+    modifying_d = [d for d, k in st1.items() if k == {"spec"} and d in dicts and d not in properties_d]
+    if len(properties_d) != 1 or len(priorities_d) != 1 or len(modifying_d) != 1 or len(finals) != 1:
+        raise AnalysisError("shape not recognised: the winner / priority / modifier dictionaries of _resolveSpecifiers")
+    properties_d, priorities_d, modifying_d, finals = properties_d[0], priorities_d[0], modifying_d[0], finals[0]
 
     def outcome(seq):
-        env = {"properties": {}, "modifying": {}, "priorities": {}, "finals": set(), "normal_specifiers": [s for s in seq if not s.modifying], "modifying_specifiers": [s for s in seq if s.modifying]}
+        env = {d: {} for d in dicts}
+        env[finals] = set()
+        env[normal] = [s for s in seq if not s.modifying]
+        env[modif] = [s for s in seq if s.modifying]
         try:
             _interp(loops, env)
         except _Err as e:
             return ("error", e.kind)
-        return ("ok", repr(env["properties"].get("p")), repr(env["modifying"].get("p")), env["priorities"].get("p"))
+        return ("ok", repr(env[properties_d].get("p")), repr(env[modifying_d].get("p")), env[priorities_d].get("p"))
 
     n_multisets = 0
     n_orders = 0
